@@ -3,11 +3,11 @@
 import json, os, re, shutil, sys
 log = {}
 SRC = {}
-for base in ("/tmp/seedout", "/tmp/seedout2"):
+for base in ("/tmp/seedout", "/tmp/seedout2", "/tmp/seedout3"):
     if not os.path.exists(base + "/confirm.log"):
         continue
     for line in open(base + "/confirm.log"):
-        m = re.match(r"(C\d\d)/([abcd]) clean_demo_exit=(\d+) mutant_demo_exit=(\d+) tests='(.*)'", line.strip())
+        m = re.match(r"(C\d\d)/([abcdef]) clean_demo_exit=(\d+) mutant_demo_exit=(\d+) tests='(.*)'", line.strip())
         if m:
             log[(m.group(1), m.group(2))] = (int(m.group(3)), int(m.group(4)), m.group(5))
             SRC[(m.group(1), m.group(2))] = base
